@@ -193,7 +193,12 @@ def run_case(ns, mon, case):
                 if ti.requires_grad:
                     bad("guards:setter-integer", "requires_grad setter made an integer tensor require grad")
             except RuntimeError:
-                pass
+                if ti.requires_grad:
+                    bad("guards:rejected-setter-left-flag-on", "the requires_grad setter refused an integer tensor but left it requiring grad")
+            try:
+                ti.requires_grad = False            # switching the flag off is always possible
+            except Exception as e:
+                bad("guards:setter-refuses-False", f"requires_grad = False on an integer tensor raised {type(e).__name__}")
             r = ti * 2
             if r.requires_grad or r.grad_fn is not None:
                 bad("guards:integer-op-result-requires-grad", "op on integer tensors produced a result requiring grad")
@@ -211,7 +216,8 @@ def run_case(ns, mon, case):
                 if tc.requires_grad:
                     bad("guards:non-float-tensor-requires-grad", f"requires_grad setter made a {np.dtype(dt).name} tensor require grad")
             except RuntimeError:
-                pass
+                if tc.requires_grad:
+                    bad("guards:rejected-setter-left-flag-on", f"the requires_grad setter refused a {np.dtype(dt).name} tensor but left it requiring grad")
         for dt in (np.float32, np.float64):
             tf = T(np.array([1.0, 2.0], dtype=dt))
             tf.requires_grad = True
@@ -270,6 +276,14 @@ def run_case(ns, mon, case):
             bad("release:root-released", "the root backward was called on lost its gradient")
         if kept._grad is None:
             bad("release:retain_grad-ignored", "an intermediate marked with retain_grad() released its gradient")
+        # an intermediate whose incoming gradient happens to be exactly zero is an intermediate like any other
+        hz = xl * 3.0
+        hr = -(xl * xl) - 1.0
+        retain_z = model["retain"]
+        ((hz * 0.0).sum() + sg.relu(hr).sum()).backward()
+        if not retain_z and (hz._grad is not None or hr._grad is not None):
+            bad("release:intermediate-kept:zero-gradient", "a non-retained intermediate that received an all-zero gradient kept a .grad after backward")
+        # (both branches contribute exactly zero to xl, whose gradient is checked again below)
         # a leaf that once was the result of an untracked op (computed under no_grad, then switched to require grad) is a leaf like any other
         with sg.no_grad():
             made = xl * 2.0 + 1.0
